@@ -17,7 +17,8 @@ RULE = ("profile objects are generated classes whose methods are decorated with 
         "pointwise maps with distinct coefficients, position-weighted, running sum, mirrored, wrong-length), returning values, (y,x) "
         "pairs or lists of them, and records the grid it received. Inputs: Grid2D.from_mask and Grid2D(values, mask) on random "
         "non-square masks (1x1 .. 6x6, densities 0.1-0.9, anisotropic dyadic pixel scales, origins k/4), Grid2DIrregular, Grid1D with "
-        "masked entries, plain ndarrays; profile centres k/4 inside and outside the frame, angles at quarter turns and Pythagorean "
+        "masked entries, plain ndarrays; profile centres k/4 inside and outside the frame and placed so that each of the four "
+        "directions (+y, -y, +x, -x) is the longest reach, also exact ties, mostly with anisotropic scales; angles at quarter turns and Pythagorean "
         "(3-4-5, 5-12-13, 8-15-17) directions, remove_projected_centre both ways, radial minima {absent, -1, 0, 1/4 .. 5} with "
         "coordinates on a 1/16 lattice around the centre including exactly at the centre (known finding) and exactly at radius = "
         "minimum. Non-trivial = at least 2 coordinates reach the function; distinct = distinct JSON input.")
@@ -395,21 +396,21 @@ def extra_evidence():
 # --------------------------------------------------------------------------------------------- generators
 PS = ["1/4", "1/2", "1", "3/2", "2", "3"]
 def S(x): return str(Fraction(x))
-def rand_mask2(rng, maxn=6):
+def rand_mask2(rng, maxn=6, iso=0.6):
     H, W = rng.randint(1, maxn), rng.randint(1, maxn)
     p = rng.choice([0.0, 0.1, 0.3, 0.5, 0.7, 0.9])
     bits = [[rng.random() < p for _ in range(W)] for _ in range(H)]
     if all(all(r) for r in bits): bits[rng.randrange(H)][rng.randrange(W)] = False
-    psy = rng.choice(PS); psx = psy if rng.random() < 0.6 else rng.choice(PS)
+    psy = rng.choice(PS); psx = psy if rng.random() < iso else rng.choice(PS)
     # origin = pixel scale * k/4: origin / pixel_scale (computed by the code) stays exact in doubles also for scales 3 and 3/2
     org = [S(F(psy) * F(rng.randint(-6, 6), 4)), S(F(psx) * F(rng.randint(-6, 6), 4))] if rng.random() < 0.7 else ["0", "0"]
     return {"bits": bits, "ps": [psy, psx], "org": org}
 def rand_pts(rng, n, span=8, den=16):
     return [[S(F(rng.randint(-span * den, span * den), den)), S(F(rng.randint(-span * den, span * den), den))] for _ in range(n)]
-def rand_grid(rng, kinds=("mask", "2d", "irr", "1d", "raw"), pts=None):
+def rand_grid(rng, kinds=("mask", "2d", "irr", "1d", "raw"), pts=None, iso=0.6):
     k = rng.choice(kinds)
     if k in ("mask", "2d"):
-        m = rand_mask2(rng)
+        m = rand_mask2(rng, iso=iso)
         g = dict(m, k=k)
         if k == "2d":
             n = n_coords(g)
@@ -459,9 +460,23 @@ def near_pts(rmin_choices):
         return out
     return f
 
+def centre_towards(rng, g, d):
+    """a profile centre for which the LONGEST axis-parallel distance to the frame edge points in direction d (each of the four
+    branches of the max / == tests in grid_scaled_2d_slim_radial_projected_from), or the y and x reaches tie"""
+    H, W = len(g["bits"]), len(g["bits"][0])
+    psy, psx = fr2(g["ps"]); oy, ox = fr2(g["org"])
+    hy, hx = psy * H / 2, psx * W / 2
+    small = F(rng.randint(-2, 2), 4)
+    if d in ("+y", "-y", "tie"):
+        a = max(F(0), hx + abs(small) - hy) + (F(0) if d == "tie" else F(rng.randint(1, 8), 4))
+        if d == "tie" and hx + abs(small) < hy: return [S(oy), S(ox + (hy - hx) * rng.choice([1, -1]))]
+        return [S(oy + (a if d != "+y" else -a) if d != "tie" else oy + a * rng.choice([1, -1])), S(ox + small)]
+    a = max(F(0), hy + abs(small) - hx) + F(rng.randint(1, 8), 4)
+    return [S(oy + small), S(ox + (a if d == "-x" else -a))]
+
 def gen_inputs(tier, rng):
     big = tier == "thorough"
-    N = 10 if big else 1
+    N = 8 if big else 1
     decs = ["array", "grid", "vector"]
     # ---- makers: every decorator x every grid kind, values / pairs / lists
     for i in range(200 * N):
@@ -471,10 +486,12 @@ def gen_inputs(tier, rng):
         yield {"op": "make", "dec": dec, "grid": g, "u": u}
     # ---- project_grid
     for i in range(150 * N):
-        g = rand_grid(rng, kinds=("mask", "mask", "2d", "irr", "1d", "1d", "raw"))
+        g = rand_grid(rng, kinds=("mask", "mask", "2d", "irr", "1d", "1d", "raw"), iso=0.3)
         centre = rng.choice(["absent", None, "v", "v", "v", "v"])
         if centre == "v":
             centre = [S(F(rng.randint(-16, 16), 4)), S(F(rng.randint(-16, 16), 4))]
+            if g["k"] in ("mask", "2d") and i % 3:
+                centre = centre_towards(rng, g, rng.choice(["+y", "-y", "+x", "-x", "tie"]))
         angle = rng.choice(["absent", None, "v", "v", "v", "v"])
         if angle == "v": angle = list(rng.choice(ANGLES))
         if g["k"] == "irr": u = rand_ufun(rng, rng.choice("VP"), allow_list=(i % 9 == 0))
